@@ -196,6 +196,10 @@ var Exprs = []string{
 	"b\"abc\" == r'raw' && s == \"\"\"tri\nple\"\"\"",
 	"x { y",
 	"", // an empty body is grammatical
+	// non-ASCII text inside string literals: two-, three- and four-byte characters (token offsets count runes, Go strings bytes)
+	"y == \"São Paulo\" || y == \"Zürich\"",
+	"y == \"日本語\" && x < 1",
+	"y != \"a😀b\"",
 }
 
 // ---- model families ---------------------------------------------------------
